@@ -9,12 +9,14 @@ CASE_TYPE = "C33_case"
 HARNESS = "lst"
 KNOWN = {}
 RULE = ("one case = one simulated three-participant scenario with RECORDING listeners (dust_dds::dds_async::*_listener "
-        "traits) on six writers / publisher / participant 0 and six readers / subscriber / participant 1 (participant 2 is "
+        "traits) on seven writers / publisher / participant 0 and eight readers / subscriber / participant 1 (participant 2 is "
         "a plain remote peer), each level "
         "with its own (listener installed?, mask) configuration; the script raises publication/subscription matched, "
         "offered/requested incompatible QoS, new data, sample rejected (resource limits), offered/requested deadline "
         "missed and the loss of a match in all three ways (matched endpoint deleted, matched endpoint's QoS update "
-        "incompatible, participant of the matched endpoint removed), and dumps the recorded calls after each phase; quick = the 128 "
+        "incompatible, participant of the matched endpoint removed), plus two phases in which several changes are added "
+        "to readers of one subscriber within ONE worker pass (one DATA accepted by two readers of the same topic; two "
+        "samples merged into one datagram), and dumps the recorded calls after each phase; quick = the 128 "
         "configurations (3 installed bits x 3 data-available mask bits x data-on-readers bit; the 64 (installed, enabled) "
         "combinations of every other status appear twice) + random per-entity configurations; distinct = distinct "
         "scenario line; non-trivial = some callback was recorded at publisher/subscriber or participant level")
@@ -33,10 +35,12 @@ KINDS = ["IT", "ODM", "RDM", "OIQ", "RIQ", "SL", "SR", "DOR", "DA", "LL", "LC", 
 WKINDS = ["PM", "OIQ", "ODM"]
 RKINDS = ["SM", "RIQ", "RDM", "SR", "DA"]
 CONST = {"PM": 1, "OIQ": 2, "ODM": 3, "SM": 4, "RIQ": 5, "RDM": 6, "SR": 7, "DA": 0}
-NW = NR = 6
-PHASES = [["EvPM 0", "EvPM 2", "EvPM 3", "EvPM 4", "EvPM 5", "EvOIQ 1",
-           "EvSM 0", "EvSM 2", "EvSM 3", "EvSM 4", "EvSM 5", "EvRIQ 1"],
+NW, NR = 7, 8        # W6 is matched with TWO readers (R6, R7) of the same subscriber on one topic
+PHASES = [["EvPM 0", "EvPM 2", "EvPM 3", "EvPM 4", "EvPM 5", "EvPM 6", "EvPM 6", "EvOIQ 1",
+           "EvSM 0", "EvSM 2", "EvSM 3", "EvSM 4", "EvSM 5", "EvSM 6", "EvSM 7", "EvRIQ 1"],
           ["EvData 0"], ["EvSR 0"], ["EvODM 0", "EvRDM 0"],
+          ["EvData 6", "EvData 7"],                          # one DATA accepted by two readers in ONE worker pass
+          ["EvData 6", "EvData 6", "EvData 7", "EvData 7"],  # two samples in one datagram: four changes in one pass
           ["EvPMun 0"],                      # the matched reader is deleted
           ["EvSMun 2"],                      # the matched writer is deleted
           ["EvPMupd 3", "EvOIQ 3"],          # the matched reader's QoS update is incompatible
@@ -103,9 +107,15 @@ def corpus():
     # of the participant reaches the publisher's / subscriber's / participant's listener as well
     c = base(); c["PUB"] = (1, ["PM"]); c["SUB"] = (1, ["SM"]); out.append(c)
     c = base(); c["W"] = [(1, [])] * NW; c["R"] = [(1, [])] * NR; c["P0"] = (1, ["PM"]); c["P1"] = (1, ["SM"]); out.append(c)
+    # several changes added to readers of one subscriber in ONE worker pass: data-on-readers for EVERY change when the
+    # subscriber's mask enables it (seeded C33: only the first change of a pass, the rest signalled as data-available)
+    c = base(); c["R"] = [(1, ["DA"])] * NR; c["SUB"] = (1, ["DOR"]); c["P1"] = (1, ["DA"]); out.append(c)
+    c = base(); c["R"] = [(1, [])] * NR; c["SUB"] = (1, ["DOR", "DA"]); out.append(c)
+    c = base(); c["R"] = [(1, ["DA"])] * NR; c["SUB"] = (0, ["DOR"]); c["P1"] = (1, ["DA"]); out.append(c)
+    c = base(); c["R"] = [(1, ["DA"])] * (NR - 1) + [(1, [])]; c["SUB"] = (1, ["DA"]); out.append(c)
     # configuration reached through set_listener: listener removed / installed / mask replaced
-    c = base(); c["W"] = [(1, ["PM"]), (0, ["OIQ"]), (1, [])] + [(1, ["PM", "OIQ"])] * 3
-    c["R"] = [(0, []), (1, ["RIQ"]), (1, ["SM"])] + [(1, ["SM", "RIQ"])] * 3
+    c = base(); c["W"] = [(1, ["PM"]), (0, ["OIQ"]), (1, [])] + [(1, ["PM", "OIQ"])] * (NW - 3)
+    c["R"] = [(0, []), (1, ["RIQ"]), (1, ["SM"])] + [(1, ["SM", "RIQ"])] * (NR - 3)
     c["PUB"] = (1, KINDS); c["SUB"] = (1, ["SM", "SR"]); c["P1"] = (1, KINDS)
     c["SL"] = {"W0": (1, KINDS), "W1": (1, KINDS), "R0": (1, KINDS), "R2": (0, []), "PUB": (0, []), "SUB": (1, KINDS), "P1": (0, KINDS)}
     out.append(c)
@@ -116,7 +126,7 @@ def lm(l):
     return "l=%d m=%s" % (l[0], ",".join(l[1]) if l[1] else "-")
 
 
-ENT = ["P0", "P1", "PUB", "SUB", "W0", "R0", "W1", "R1", "W2", "R2", "W3", "R3", "W4", "R4", "W5", "R5"]
+ENT = ["P0", "P1", "PUB", "SUB", "W0", "R0", "W1", "R1", "W2", "R2", "W3", "R3", "W4", "R4", "W5", "R5", "W6", "R6", "R7"]
 
 
 def final_cfg(c, key):
@@ -127,9 +137,9 @@ def case_line(c):
     sl = c.get("SL", {})
     # an entity listed in c["SL"] is created with that (old) configuration and re-configured with set_listener
     cr = lambda key: (lm(sl[key]) + " old=1") if key in sl else lm(final_cfg(c, key))
-    # participant 2 is the plain remote peer of W5 / R5 (no listeners): its writer / reader have index 6
+    # participant 2 is the plain remote peer of W5 / R5 (no listeners): its writer has index 7, its reader index 8
     s = ["P 0 " + cr("P0"), "P 0 " + cr("P1"), "P 0", "T 0 a", "T 1 a", "T 0 b", "T 1 b", "T 0 c", "T 1 c",
-         "T 0 d", "T 1 d", "T 0 e", "T 1 e", "T 0 f", "T 2 f", "T 2 g", "T 1 g",
+         "T 0 d", "T 1 d", "T 0 e", "T 1 e", "T 0 f", "T 2 f", "T 2 g", "T 1 g", "T 0 h", "T 1 h",
          "PUB 0 " + cr("PUB"), "SUB 1 " + cr("SUB"), "PUB 2", "SUB 2",
          "W 0 0 rel=1 dl=100000000 " + cr("W0"), "R 0 1 rel=1 dl=100000000 ms=1 mspi=1 " + cr("R0"),
          "W 0 2 rel=0 " + cr("W1"), "R 0 3 rel=1 " + cr("R1"),
@@ -137,6 +147,7 @@ def case_line(c):
          "W 0 6 rel=1 " + cr("W3"), "R 0 7 rel=1 " + cr("R3"),
          "W 0 8 rel=1 " + cr("W4"), "R 0 9 rel=1 " + cr("R4"),
          "W 0 10 rel=1 " + cr("W5"), "R 0 13 rel=1 " + cr("R5"),
+         "W 0 14 rel=1 " + cr("W6"), "R 0 15 rel=1 " + cr("R6"), "R 0 15 rel=1 " + cr("R7"),
          "W 1 12 rel=1", "R 1 11 rel=1"]
     for key in ENT:
         if key in sl:
@@ -146,6 +157,8 @@ def case_line(c):
          "w 0 1 10 1", "net", "ev",
          "w 0 1 10 2", "net", "ev",
          "jump 150000000", "net", "ev",
+         "w 6 1 10 1", "net", "ev",
+         "w 6 1 10 2", "w 6 2 10 3", "netm", "net", "ev",
          "delR 0", "net", "pm 0", "ev",
          "delW 2", "net", "sm 2", "ev",
          "Q R 3 dl=50000000", "net", "pm 3", "ev",
@@ -177,7 +190,7 @@ def parse_line(line):
             if o[0] not in c:
                 c[o[0]] = parse_lm(o)
         elif o[0] in ("W", "R"):
-            if len(c[o[0]]) < NW:
+            if len(c[o[0]]) < (NW if o[0] == "W" else NR):
                 c[o[0]].append(parse_lm(o))
         elif o[0] == "SL":
             key = o[1] + o[2] if o[1] in "WRP" else o[1]
